@@ -174,7 +174,7 @@ def job_api(j):
                                             replay=dict(part='api', cfg=cfg, transport=transport, seed=seed),
                                             detail=dict(sensor=sid, cause=cause, fill=k, model=cfg['tag'], rated=cfg['power'])))
     # (the last pass repeats one fill with the library's logging at its default level instead of DEBUG)
-    for k in list(range(FILLS)) + ['default-logging', 'overlapped', 'overlapped+ka']:
+    for k in list(range(FILLS)) + ['default-logging', 'overlapped', 'overlapped+ka', 'second-poll', 'second-poll+ka']:
         world.reset()
         world.set_debug_logging(k != 'default-logging')
         mode = k if isinstance(k, str) else ''
@@ -188,6 +188,16 @@ def job_api(j):
                 r.dev.runtime[i] = f(i) & 0xFF
         if r.call(inv.read_device_info)[0] != 'ok':
             continue
+        if mode.startswith('second-poll') and fam != 'ES':
+            # the object was polled before; meanwhile every register OUTSIDE the first block of the poll changed (the first
+            # block - with the inverter's clock - reads the same): the values follow their own registers, not the last poll
+            lp = len(r.dev.log)
+            r.call(inv.read_runtime_data)
+            prev_windows = [(q['reg'], q['reg'] + q['count'] - 1) for q in r.dev.log[lp:] if q.get('fn') == 3]
+            first = min(q['reg'] for q in r.dev.log if q.get('fn') == 3 and q['count'] > 8) if any(q.get('fn') == 3 and q['count'] > 8 for q in r.dev.log) else 0
+            lo, hi = (35100, 35224) if fam == 'ET' else (30100, 30172)
+            old_fill = r.dev.rf.fill
+            r.dev.rf.fill = lambda a, f=old_fill, lo=lo, hi=hi: f(a) if lo <= a <= hi else (f(a) ^ 0x0155) & 0xFFFF
         l0 = len(r.dev.log)
         if mode.startswith('overlapped'):
             # the poll runs while other calls on the same object are pending / queued (single reads of other registers)
@@ -209,6 +219,8 @@ def job_api(j):
         # (blocks of the poll only: the overlapped single reads fetch at most 4 registers)
         windows = [(q['reg'], q['reg'] + q['count'] - 1) for q in r.dev.log[l0:] if q.get('fn') == 3 and
                    (not mode.startswith('overlapped') or q['count'] > 8)]
+        if mode.startswith('second-poll') and fam != 'ES':
+            windows = windows + prev_windows      # what the previous poll fetched and reported is still reported: from where?
         ids = [s.id_ for s in inv.sensors()]
         for s in inv.sensors():
             if not own_span(s) or s.id_ not in d:
@@ -233,7 +245,8 @@ def job_api(j):
             n += 1
             df = compare(s, got, ref)
             if df:
-                bad(f'api:documented-reading/{fam}/{tname(s)}' + ('/overlapping-calls' if mode.startswith('overlapped') else ''),
+                bad(f'api:documented-reading/{fam}/{tname(s)}' + ('/overlapping-calls' if mode.startswith('overlapped') else
+                                                                   '/second-poll-after-other-blocks-changed' if mode.startswith('second') else ''),
                     s.id_, f'{s.id_} @{s.offset} = {own.hex()}: {df}' + (f' ({mode})' if mode else ''), k)
     world.set_debug_logging(True)
     # single reads through both entry points, in both orders, on one object: read_sensor(id) / read_setting(id) report the
